@@ -1,4 +1,4 @@
-import KalignModel.Props.C01
+import KalignModel.Props.Pipeline
 #print axioms Kalign.weave
 #print axioms Kalign.degap_makeLinear
 #print axioms Kalign.C01_merge_integrity
@@ -9,3 +9,6 @@ import KalignModel.Props.C01
 #print axioms Kalign.Kmeans.split2_partition
 #print axioms Kalign.Kmeans.bisectingKmeans_leaves
 #print axioms Kalign.Kmeans.bisectingKmeans_fuel
+#print axioms Kalign.Pipeline.kalignRunWith_integrity
+#print axioms Kalign.Pipeline.kalignRun_integrity
+#print axioms Kalign.Pipeline.kalignRun_integrity_chars
